@@ -355,14 +355,17 @@ type harness struct {
 	capped   int32
 }
 
-func tagsOf(b *baseline, o *obs) []string {
-	tags := []string{"op:" + b.op.Name, "kind:" + b.op.Kind, "dialect:" + b.dialect}
+func tagsOf(b *baseline, o *obs, aspect string) []string {
+	tags := []string{"op:" + b.op.Name, "kind:" + b.op.Kind, "dialect:" + b.dialect, "aspect:" + aspect}
 	for _, t := range b.op.Tags {
 		if t == opcat.TagSaveAbsent || t == opcat.TagSaveAbsentHooks {
-			// the finding is about the second implicit transaction of Save: only
-			// fault lists whose first fault comes after the first (successful)
-			// commit belong to it (computed from the fault positions, not the outcome).
-			if o.commitsBeforeFirstFault >= 1 {
+			// the finding is about rows committed by the first implicit transaction
+			// of Save staying behind when the second one fails: it covers only the
+			// table-state part of the oracle, and only fault lists whose first
+			// fault comes after the first (successful) commit (computed from the
+			// fault positions, not from the outcome). Error reporting, leaks and
+			// the fault-free expectations stay hard assertions for these inputs.
+			if aspect == "state" && o.commitsBeforeFirstFault >= 1 {
 				tags = append(tags, t)
 			}
 			continue
@@ -372,45 +375,62 @@ func tagsOf(b *baseline, o *obs) []string {
 	return tags
 }
 
-// verdict evaluates the oracle; "" = fine.
-func verdict(b *baseline, o *obs) string {
+// finding is one failed part of the oracle. The parts are evaluated
+// independently of each other, and a known-finding tag is attached only to the
+// part that the finding is about (aspect "state" for the Save fallback), so a
+// listed finding can never hide a different failure on the same input.
+type finding struct {
+	aspect string // hang panic fault-free leak error-nil error-identity state
+	msg    string
+}
+
+func verdicts(b *baseline, o *obs) []finding {
 	if o.hung {
-		return "the operation did not return within 30s (deadlock)"
+		return []finding{{"hang", "the operation did not return within 30s (deadlock)"}}
 	}
 	if o.panicMsg != "" {
-		return "panic inside gorm\n" + o.panicMsg
+		return []finding{{"panic", "panic inside gorm\n" + o.panicMsg}}
 	}
+	var out []finding
 	if len(o.fired) == 0 {
 		if o.err != nil {
-			return "fault-free run returned an error\nerr=" + o.errStr
+			out = append(out, finding{"fault-free", "fault-free run returned an error\nerr=" + o.errStr})
 		}
 		if o.leaks != "" {
-			return "fault-free run leaks a transaction or connection\n" + o.leaks
+			out = append(out, finding{"fault-free", "fault-free run leaks a transaction or connection\n" + o.leaks})
 		}
 		if b.complete != "" && o.dump != b.complete {
-			return "fault-free run is not deterministic (differential between two fresh environments)\n" + dumpDiff(b.complete, o.dump)
+			out = append(out, finding{"fault-free", "fault-free run is not deterministic (differential between two fresh environments)\n" + dumpDiff(b.complete, o.dump)})
 		}
-		return ""
+		return out
 	}
 	if o.leaks != "" {
-		return "transaction or connection left open after a failed write\n" + o.leaks
+		out = append(out, finding{"leak", "transaction or connection left open after a failed write\n" + o.leaks})
 	}
 	if o.err == nil {
-		msg := "failure swallowed: result Error is nil although a fault was injected"
-		if o.dump != o.pre {
-			msg += "\nand the database changed:\n" + dumpDiff(o.pre, o.dump)
+		out = append(out, finding{"error-nil", "failure swallowed: result Error is nil although a fault was injected"})
+	} else {
+		okDrv := o.firedDrv > 0 && errors.Is(o.err, recsqlite.ErrInjected)
+		okHook := o.firedHook > 0 && errors.Is(o.err, opcat.ErrHook)
+		if !okDrv && !okHook {
+			out = append(out, finding{"error-identity", "the returned error does not wrap the injected failure\nerr=" + o.errStr})
 		}
-		return msg
 	}
 	if o.dump != o.pre {
-		return "partial application: a write failed, an error was returned, but the database is not in its pre-state\n" + dumpDiff(o.pre, o.dump)
+		out = append(out, finding{"state", "partial application: a write failed but the database is not in its pre-state\n" + dumpDiff(o.pre, o.dump)})
 	}
-	okDrv := o.firedDrv > 0 && errors.Is(o.err, recsqlite.ErrInjected)
-	okHook := o.firedHook > 0 && errors.Is(o.err, opcat.ErrHook)
-	if !okDrv && !okHook {
-		return "the returned error does not wrap the injected failure\nerr=" + o.errStr
+	return out
+}
+
+func kinds(fs []finding) string {
+	if len(fs) == 0 {
+		return "ok"
 	}
-	return ""
+	var ks []string
+	for _, f := range fs {
+		ks = append(ks, strings.SplitN(f.msg, "\n", 2)[0])
+	}
+	return strings.Join(ks, " + ")
 }
 
 func describe(b *baseline, c Case, o *obs) string {
@@ -440,8 +460,10 @@ func (hs *harness) baselineOf(op opcat.Op, dialect string) *baseline {
 // unordered operations). Returns false when the operation cannot be explored.
 func (hs *harness) checkBaseline(b *baseline) bool {
 	c := Case{Op: b.op.Name, Dialect: b.dialect, Readable: b.op.Text}
-	if v := verdict(&baseline{op: b.op, dialect: b.dialect}, b.o); v != "" {
-		hs.run.Violation(tagsOf(b, b.o), v+"\n"+describe(b, c, b.o), c)
+	if fs := verdicts(&baseline{op: b.op, dialect: b.dialect}, b.o); len(fs) > 0 {
+		for _, f := range fs {
+			hs.run.Violation(tagsOf(b, b.o, f.aspect), f.msg+"\n"+describe(b, c, b.o), c)
+		}
 		return false
 	}
 	got := rowCounts(b.o.dump)
@@ -453,7 +475,7 @@ func (hs *harness) checkBaseline(b *baseline) bool {
 		}
 	}
 	if len(bad) > 0 {
-		hs.run.Violation(tagsOf(b, b.o), "fault-free run does not produce the expected complete state (row counts)\n"+strings.Join(bad, "\n")+"\n"+dumpDiff(b.o.pre, b.o.dump)+"\n"+describe(b, c, b.o), c)
+		hs.run.Violation(tagsOf(b, b.o, "fault-free"), "fault-free run does not produce the expected complete state (row counts)\n"+strings.Join(bad, "\n")+"\n"+dumpDiff(b.o.pre, b.o.dump)+"\n"+describe(b, c, b.o), c)
 		return false
 	}
 	if b.o.dump == b.o.pre && len(b.op.Delta) > 0 {
@@ -463,7 +485,7 @@ func (hs *harness) checkBaseline(b *baseline) bool {
 	for i := 0; i < 2; i++ {
 		again := execute(b.op, b.dialect, mc.NewExec(nil), nil)
 		if again.dump != b.complete {
-			hs.run.Violation(tagsOf(b, again), "fault-free run is not deterministic (differential between two fresh environments)\n"+dumpDiff(b.complete, again.dump)+"\n"+describe(b, c, again), c)
+			hs.run.Violation(tagsOf(b, again, "fault-free"), "fault-free run is not deterministic (differential between two fresh environments)\n"+dumpDiff(b.complete, again.dump)+"\n"+describe(b, c, again), c)
 			return false
 		}
 		k1, k2 := b.keys, again.keys()
@@ -528,26 +550,22 @@ func (hs *harness) explore(b *baseline, bound int, deadline time.Time) {
 				}
 			}
 		}
-		v := verdict(b, o)
-		outcome := "ok"
-		if v != "" {
-			outcome = strings.SplitN(v, "\n", 2)[0]
-		}
+		fs := verdicts(b, o)
 		state := "pre"
 		if o.dump == b.complete {
 			state = "complete"
 		} else if o.dump != o.pre {
 			state = "other"
 		}
-		hs.outcomes.Add(fmt.Sprintf("%s|%s|err=%v|%s", b.op.Kind, state, o.err != nil, outcome))
-		if v == "" {
+		hs.outcomes.Add(fmt.Sprintf("%s|%s|err=%v|%s", b.op.Kind, state, o.err != nil, kinds(fs)))
+		if len(fs) == 0 {
 			return
 		}
 		// determinism of the failing execution before it is reported
 		fpOf := func(o *obs) string {
 			if b.upfront != nil {
 				// which of the chosen calls is reached first depends on map order
-				return strings.SplitN(verdict(b, o), "\n", 2)[0]
+				return kinds(verdicts(b, o))
 			}
 			return o.fingerprint()
 		}
@@ -560,8 +578,10 @@ func (hs *harness) explore(b *baseline, bound int, deadline time.Time) {
 				return
 			}
 		}
-		atomic.AddInt64(&opViol, 1)
-		hs.run.Violation(tagsOf(b, o), v+"\n"+describe(b, c, o), c)
+		for _, f := range fs {
+			atomic.AddInt64(&opViol, 1)
+			hs.run.Violation(tagsOf(b, o, f.aspect), f.msg+"\n"+describe(b, c, o), c)
+		}
 	}
 	e.Explore()
 	if e.Capped {
@@ -601,12 +621,14 @@ func replay(run *mc.Run, path string) {
 	prefixStats(o, x, b.upfront != nil)
 	fmt.Print(describe(b, c, o))
 	fmt.Printf("difference to the pre-state:\n%s\n", dumpDiff(o.pre, o.dump))
-	v := verdict(b, o)
-	if v == "" {
+	fs := verdicts(b, o)
+	if len(fs) == 0 {
 		fmt.Println("verdict: holds")
 		os.Exit(0)
 	}
-	fmt.Printf("verdict: VIOLATION — %s\ntags: %v\n", v, tagsOf(b, o))
+	for _, f := range fs {
+		fmt.Printf("verdict: VIOLATION — %s\ntags: %v\n", f.msg, tagsOf(b, o, f.aspect))
+	}
 	os.Exit(1)
 }
 
